@@ -222,6 +222,35 @@ M = [
       old="        Uint::lt(&lhs.invert_msb().0, &rhs.invert_msb().0)",
       new="        Self(lhs.0.wrapping_sub(&rhs.0)).is_negative()",
       expect="c06.subcmp|int::cmp::<impl int::Int<_>>::lt"),
+ # --- c15.zip (reverse of repo fix 6f27caf)
+ dict(name="boxed_bitor_assign_zip", prop="C15", file="src/uint/boxed/bit_or.rs",
+      old="    #[allow(clippy::assign_op_pattern)]\n    fn bitor_assign(&mut self, other: &Self) {\n        *self = BoxedUint::bitor(self, other);\n    }",
+      new="    fn bitor_assign(&mut self, other: &Self) {\n        for (a, b) in self.limbs.iter_mut().zip(other.limbs.iter()) {\n            *a |= *b;\n        }\n    }",
+      expect="c15.zip|uint::boxed::bit_or::<impl core::ops::BitOrAssign<&uint::boxed::BoxedUint> for uint::boxed::BoxedUint>::bitor_assign"),
+ # --- reverse mutations of the repo fixes d500ebb, 5f1e674, 8971c4e, 1b4567e, 675ce84, 406784b
+ dict(name="mul_mod_special_narrow_add", prop="C07", file="src/uint/mul_mod.rs",
+      old="let rhs = (carry.0 as WideWord + 1) * c.0 as WideWord;", new="let rhs = (carry.0 + 1) as WideWord * c.0 as WideWord;",
+      expect="c07.widenlate|uint::mul_mod::<impl uint::Uint<_>>::mul_mod_special|Add"),
+ dict(name="boxed_mul_mod_special_narrow_add", prop="C11", file="src/uint/boxed/mul_mod.rs",
+      old="let rhs = (carry.0 as WideWord + 1) * c.0 as WideWord;", new="let rhs = (carry.0 + 1) as WideWord * c.0 as WideWord;",
+      expect="c11.widenlate|uint::boxed::mul_mod::<impl uint::boxed::BoxedUint>::mul_mod_special|Add"),
+ dict(name="boxed_ct_select_debug_only", prop="C06", file="src/uint/boxed/ct.rs",
+      old="        assert_eq!(a.bits_precision(), b.bits_precision());\n        let mut limbs",
+      new="        debug_assert_eq!(a.bits_precision(), b.bits_precision());\n        let mut limbs",
+      expect="c06.dbgwidth|uint::boxed::ct::<impl traits::ConstantTimeSelect for uint::boxed::BoxedUint>::ct_select"),
+ dict(name="boxed_neg_mod_debug_only", prop="C07", file="src/uint/boxed/neg_mod.rs",
+      old="        assert_eq!(self.bits_precision(), p.bits_precision());", new="        debug_assert_eq!(self.bits_precision(), p.bits_precision());",
+      expect="c07.dbgwidth|uint::boxed::neg_mod::<impl uint::boxed::BoxedUint>::neg_mod"),
+ dict(name="boxed_inv_mod_debug_only", prop="C10", file="src/uint/boxed/inv_mod.rs",
+      old="        assert_eq!(self.bits_precision(), modulus.bits_precision());", new="        debug_assert_eq!(self.bits_precision(), modulus.bits_precision());",
+      expect="c10.dbgwidth|uint::boxed::inv_mod::<impl uint::boxed::BoxedUint>::inv_mod"),
+ dict(name="int_from_i128_no_assert", prop="C13", file="src/int/from.rs",
+      old="        assert!(\n            LIMBS >= 16 / Limb::BYTES,\n            \"number of limbs must be enough to hold 128 bits\"\n        );\n", new="",
+      expect="c13.dbgsize|int::from::<impl core::convert::From<i128> for int::Int<_>>::from"),
+ dict(name="serde_decoded_length_dropped", prop="C16", file="src/uint.rs",
+      old="        let expected = buffer.as_ref().len();\n        let decoded = serdect::array::deserialize_hex_or_bin(buffer.as_mut(), deserializer)?.len();\n        if decoded != expected {\n            return Err(serdect::serde::de::Error::invalid_length(\n                decoded,\n                &\"an encoding of the integer's full size\",\n            ));\n        }\n",
+      new="        serdect::array::deserialize_hex_or_bin(buffer.as_mut(), deserializer)?;\n",
+      expect="c16.declen|<uint::Uint<_> as serdect::serde::Deserialize<_>>::deserialize|0"),
 ]
 
 def main():
